@@ -107,6 +107,30 @@ CHECKS["C06"] = dict(
     note="Trusted: ref/vsem.py, ref/vgen.py; non-polynomial subterms are decided on the finite environment set only; "
          "programs limited to the generator's families (node bound ~12), derivative order <= 2.")
 
+CHECKS["C13"] = dict(
+    category="model_checking", design_ref="DESIGN.md §3 C13 (amended: semantic instead of textual code comparison)",
+    technique="explicit-state exploration of the in-process assembler cache: all forms of the bounded grammar plus every "
+              "one-token mutant x on_demand; all unordered pairs decided by grouping on the real cache key; all ordered "
+              "request sequences of length 2-3 per neighbourhood on the real cache with the compiler stubbed; freshness of "
+              "shipped generated files under several PYTHONHASHSEED values",
+    text="~14k forms: equal cache key must imply the same assembler (same interface and same integrand value under the "
+         "independent semantics in fixed environments); ~12k request sequences on the real cache must serve each request with an "
+         "assembler generated from an equivalent form; assemblers.pyx/genericasm.pxi are regenerated in fresh processes and "
+         "compared with the shipped files.",
+    note="Trusted: ref/vsem.py semantics as the meaning of 'identical code' (the generator's statement order and temporary names "
+         "are not deterministic between two generations of the same form, so text cannot be compared); compiler stubbed.")
+CHECKS["C17"] = dict(
+    category="model_checking", design_ref="DESIGN.md §3 C17",
+    technique="bounded-exhaustive enumeration of spline spaces (knot-vector alphabet, dims 1-3) x geometries x node grids x data "
+              "forms with the projection property decided on EVERY basis function (linearity), plus all states of small C04 "
+              "rows for hierarchical spaces",
+    text="interpolate and project_L2 must return the unit vector for every basis function of every enumerated space (exact "
+         "reference evaluation), match data at the nodes, have an L2-orthogonal residual for monomials outside the space, treat "
+         "vector/matrix data componentwise and physical data like their pull-backs; hierarchical: every (T)HB function of every "
+         "reachable state of the rows 1D-k3-L2, 1D-k1-L3 (thorough: 1D-k2-L3, 2D-2x1-L2).",
+    note="Trusted: ref/bsp.py, ref/l2ref.py quadrature; acceptance scaled by conditioning (cond*eps*100); NURBS geometry and "
+         "degree p+2 monomials compared against the library's own Gauss rule; known finding: hierarchical load vector quadrature.")
+
 NOT_YET = {}
 
 
